@@ -275,4 +275,4 @@ def _worker(ctx, n):
 
 def run(ctx):
     quick = ctx.tier == "quick"
-    ctx.parallel(_worker, [140] * 16 if quick else [30000] * 16)
+    ctx.parallel(_worker, [500] * 16 if quick else [30000] * 16)
